@@ -261,4 +261,76 @@ theorem processFile_none_file (env : Env) (src : Bytes) :
     (processFile env none src).file = Pcap.header ++ recsBytes (processFile env none src).emitted := by
   rw [processFile_eq]; exact execPlan_none_file env _
 
+theorem planLines_error_ne_success : ∀ (lines : List Bytes) (f : Front) (lno : Nat) (o : Outcome),
+    (planLines f lno lines).2 = .error o → o ≠ .success := by
+  intro lines
+  induction lines with
+  | nil => intro f lno o h; simp [planLines] at h
+  | cons raw rest ih =>
+    intro f lno o h
+    simp only [planLines] at h
+    cases h1 : utf8Decode raw with
+    | none => simp only [h1] at h; cases h; simp
+    | some ln =>
+      simp only [h1] at h
+      cases h2 : Lex.line lno f.pending ln with
+      | error col => simp only [h2] at h; cases h; simp
+      | ok lo =>
+        simp only [h2] at h
+        cases h3 : feedToks f.cfg lo.toks with
+        | error ol => cases ol <;> (simp only [h3] at h; cases h; simp)
+        | ok cfg =>
+          simp only [h3] at h
+          exact ih _ _ o h
+
+theorem planOf_final (src : Bytes) : (planOf src).final ≠ some .success := by
+  unfold planOf
+  simp only []
+  cases h : (planLines ⟨"", Loc.nil, LR.Cfg.init⟩ 1 (splitLines src)).2 with
+  | error o =>
+    simp only []
+    have := planLines_error_ne_success _ _ _ o h
+    intro hc; cases hc; exact this rfl
+  | ok f =>
+    simp only []
+    cases LR.feed f.cfg LR.eofTok <;> simp
+
+/-! ## a successful run executed all statements of all batches, in order -/
+
+theorem runBatches_ok {env : Env} (bs : List (List Stmt)) : ∀ {st st' : PState},
+    runBatches env st bs = .ok st' → addStmts env st bs.flatten = .ok st' := by
+  induction bs with
+  | nil => intro st st' h; simp only [runBatches] at h; cases h; rfl
+  | cons b bs ih =>
+    intro st st' h
+    simp only [runBatches] at h
+    rw [List.flatten_cons, addStmts_append]
+    cases h1 : addStmts env st b with
+    | err e l => simp [h1] at h
+    | panic x => simp [h1] at h
+    | ok s1 =>
+      simp only [h1] at h
+      simp only [Res.bind_ok_eq]
+      exact ih h
+
+theorem execFrom_success {env : Env} {fin : Option Outcome} (hfin : fin ≠ some .success) {st : PState}
+    {bs : List (List Stmt)} (h : (execFrom env fin st bs).outcome = .success) :
+    ∃ st', addStmts env st bs.flatten = .ok st' ∧ (execFrom env fin st bs).emitted = st'.emitted := by
+  unfold execFrom at h ⊢
+  have hc := runBatches_cases (env := env) (fun _ => True) (fun _ _ _ _ _ => trivial) bs st trivial
+  cases hr : runBatches env st bs with
+  | error r =>
+    rw [hr] at hc h
+    obtain ⟨s1, o, _, rfl, ho⟩ := hc
+    exact absurd h ho
+  | ok st' =>
+    rw [hr] at h
+    refine ⟨st', runBatches_ok bs hr, ?_⟩
+    simp only []
+    cases fin with
+    | some o => simp only [finish] at h; exact absurd (by rw [h]) hfin
+    | none =>
+      simp only []
+      split <;> rfl
+
 end Resynth
